@@ -28,7 +28,8 @@ MVal(S, t, n) ==       \* a value of type t whose leaves are markers n, n+1, ...
 
 AField(id, name, t, req, ann) == [id |-> id, name |-> name, t |-> t, req |-> req, def |-> NoDef, ann |-> ann]
 SecDef(sh, req, kind) == [name |-> "Sec", kind |-> kind, items |-> <<>>, target |-> B("i32"),
-   fields |-> << AField(1, "secret", sh, req, "go.redact"), AField(2, "plain", B("string"), FALSE, ""), AField(3, "quiet", sh, FALSE, "go.nolog") >>]
+   fields |-> << AField(1, "secret", sh, req, "go.redact"), AField(2, "plain", B("string"), FALSE, ""), AField(3, "quiet", sh, FALSE, "go.nolog"),
+               AField(4, "hushed", sh, FALSE, Both) >>]
 HoldDef == [name |-> "Hold", kind |-> "struct", items |-> <<>>, target |-> B("i32"),
    fields |-> << AField(1, "direct", Ref("Sec"), FALSE, ""), AField(2, "inList", ListOf(Ref("Sec")), FALSE, ""),
                  AField(3, "inMapVal", MapOf(B("string"), Ref("Sec")), FALSE, ""), AField(4, "inMapKey", MapOf(Ref("Sec"), B("string")), FALSE, ""),
@@ -37,7 +38,8 @@ HoldDef == [name |-> "Hold", kind |-> "struct", items |-> <<>>, target |-> B("i3
                  AField(8, "topSecret", B("string"), FALSE, "go.redact"), AField(9, "topQuiet", B("i32"), FALSE, "go.nolog") >>]
 SchemaFor(sh, req, kind) == Support \o << SecDef(sh, req, kind), Td("SecAlias", Ref("Sec")), Td("SecList", ListOf(Ref("Sec"))), HoldDef >>
 
-SecVal(S, sh, k) == St(<< F("secret", MVal(S, sh, 20 * k)), F("plain", Str(MkStr(20 * k + 16))), F("quiet", MVal(S, sh, 20 * k + 8)) >>)
+SecVal(S, sh, k) == St(<< F("secret", MVal(S, sh, 30 * k)), F("plain", Str(MkStr(30 * k + 16))), F("quiet", MVal(S, sh, 30 * k + 8)),
+                           F("hushed", MVal(S, sh, 30 * k + 20)) >>)
 HoldVal(S, sh) == St(<< F("direct", SecVal(S, sh, 1)), F("inList", LV(<< SecVal(S, sh, 2), SecVal(S, sh, 3) >>)),
                         F("inMapVal", MV(<< [k |-> Str(<<107, 49>>), v |-> SecVal(S, sh, 4)] >>)),
                         F("inMapKey", MV(<< [k |-> SecVal(S, sh, 5), v |-> Str(<<118>>)] >>)),
